@@ -109,8 +109,14 @@ class Authenticator:
         """
         if not isinstance(auth_event_json, dict):
             raise AuthenticationError("Invalid")
-        auth_event = Event(**auth_event_json)
-        self.check_auth_event(auth_event, challenge)
+        try:
+            auth_event = Event(**auth_event_json)
+            self.check_auth_event(auth_event, challenge)
+        except AuthenticationError:
+            raise
+        except Exception:
+            # missing fields, tags without a value...
+            raise AuthenticationError("invalid: Bad auth event")
 
         token = {
             "pubkey": auth_event.pubkey,
